@@ -4,12 +4,12 @@
 package e6modfile
 
 import (
-	"os"
 	"fmt"
 	"go/ast"
 	"go/constant"
 	"go/token"
 	"go/types"
+	"os"
 	"sort"
 	"strings"
 
